@@ -168,6 +168,9 @@ func checkDecodeGates(r *Report, p *Prog, rule string, only func(*ssa.Function) 
 		if only != nil && !only(fn) {
 			continue
 		}
+		if cs != nil {
+			checkClaimsValid(r, p, rule, fn, cs)
+		}
 		a := NewAnalysis(p)
 		// the decoder's unexported helpers (a shared parse step, the claim checks) are analysed as part of it
 		a.Inline = func(f *ssa.Function) bool {
@@ -323,6 +326,7 @@ func ruleC16(r *Report) {
 	r.Rule("C16.mapping", "claims attributes come only from the assertion's attribute statements and session indexes; the subject from the assertion's NameID", 1)
 
 	markers := checkDecodeGates(r, p, "C16.decode-gates", nil)
+	checkConfigReadOnly(r, p, "C16.decode-gates", "samlsp", "JWTSessionCodec", "CookieSessionProvider")
 	checkMarkers(r, p, markers, "C16.markers")
 
 	// expiry at mint (session codec): role = samlsp method taking *saml.Assertion and storing to a claims struct
@@ -586,6 +590,7 @@ func ruleC17(r *Report) {
 		return cs != nil && strings.Contains(cs.Obj().Name(), "TrackedRequest")
 	})
 	checkTracker(r, p, "C17.tracker")
+	checkConfigReadOnly(r, p, "C17.tracker", "samlsp", "JWTTrackedRequestCodec", "CookieRequestTracker", "Middleware")
 	checkStopTracking(r, p, "C17.tracker")
 	checkRedirect(r, p, "C17.redirect", "C17.order")
 	checkCookieFlags(r, p, "C17.cookie-flags")
@@ -1177,4 +1182,82 @@ func isMapLookupOf(v ssa.Value, m, key ssa.Value) bool {
 		return ok1 && ok2 && la.X == lb.X
 	}
 	return same(lk.X, m) && same(lk.Index, key)
+}
+
+// checkClaimsValid: the parser validates exp/nbf/iat by calling the claims value's Valid method. The trusted base is
+// golang-jwt's own (promoted from the embedded registered claims). A Valid method the module defines on the claims
+// struct replaces it: it must then hand the decision to the embedded one — every nil return under the nil result of
+// the embedded claims' Valid — or the token lifetime is whatever the module's own arithmetic says.
+func checkClaimsValid(r *Report, p *Prog, rule string, dec *ssa.Function, cs *types.Named) {
+	cons := fmt.Sprintf("%s: time validity of %s is judged by golang-jwt", p.FnName(dec), cs.Obj().Name())
+	var m *types.Func
+	for _, t := range []types.Type{cs, types.NewPointer(cs)} {
+		ms := types.NewMethodSet(t)
+		if sel := ms.Lookup(nil, "Valid"); sel != nil {
+			if f, ok := sel.Obj().(*types.Func); ok {
+				m = f
+			}
+		}
+	}
+	if m == nil {
+		r.Bad(rule, cons, p.Pos(dec.Pos()), "the claims type has no Valid method")
+		return
+	}
+	if m.Pkg() == nil || !strings.HasPrefix(m.Pkg().Path(), modPath) {
+		r.OK(rule, cons, p.Pos(dec.Pos()), "Valid is "+m.FullName()+" (promoted from the embedded claims)")
+		return
+	}
+	fn := p.SSA.FuncValue(m)
+	if fn == nil || len(fn.Blocks) == 0 {
+		r.Bad(rule, cons, p.Pos(dec.Pos()), "module-defined Valid method without a body")
+		return
+	}
+	r.Fn(p.FnName(fn))
+	a := NewAnalysis(p)
+	fc := a.Ctx(fn)
+	fc.ensureConds()
+	var inner []string
+	for _, b := range fn.Blocks {
+		for _, in := range b.Instrs {
+			c, ok := in.(*ssa.Call)
+			if !ok || c.Call.StaticCallee() == nil {
+				continue
+			}
+			sc := c.Call.StaticCallee()
+			if sc.Name() == "Valid" && sc.Pkg != nil && strings.Contains(sc.Pkg.Pkg.Path(), "golang-jwt") {
+				inner = append(inner, "isnil("+fc.AP(c)+")")
+			}
+		}
+	}
+	ok := len(inner) > 0
+	for _, ret := range fc.Returns() {
+		if len(ret.Results) != 1 {
+			continue
+		}
+		// a return that may be nil must lie under the embedded Valid's nil result
+		if _, isCall := Resolve(ret.Results[0]).(*ssa.Call); isCall && len(inner) > 0 && "isnil("+fc.AP(Resolve(ret.Results[0]))+")" == inner[0] {
+			continue // return c.RegisteredClaims.Valid()
+		}
+		under := false
+		for _, nm := range inner {
+			if a.B.HasVar(nm) && fc.Implied(ret.Block(), a.B.Var(nm)) {
+				under = true
+			}
+		}
+		if !isNilConst(Resolve(ret.Results[0])) {
+			// a non-constant error value: nil only if some tested error was nil; accept when it is the embedded call's own result
+			if under {
+				continue
+			}
+			if _, isPhi := ret.Results[0].(*ssa.Phi); !isPhi {
+				if _, isC := Resolve(ret.Results[0]).(*ssa.Call); isC {
+					continue // an error constructed here: not nil
+				}
+			}
+		}
+		if !under {
+			ok = false
+		}
+	}
+	r.Check(ok, rule, cons, p.Pos(fn.Pos()), "the module's Valid returns nil only under the embedded claims' Valid == nil", "the claims type defines its own Valid ("+p.FnName(fn)+"), which golang-jwt calls instead of the registered claims' one, and it does not defer to it: expiry and not-before are whatever this method computes (a leeway written here extends the token's life)")
 }
